@@ -19,7 +19,7 @@ PID = 'C07'
 LEVEL = 'other'
 TECHNIQUE = ('symbolic execution of the bank constructors and response methods on symbolic reals; closed-form envelopes compared in the log domain '
              '(linear arithmetic over uninterpreted log/exp/sqrt with instantiated axioms), Newton search replaced by its exit condition')
-FUNCTIONS = ['filters:ComplexGammatoneFilterBank._h', 'filters:GaborFilterBank.__init__', 'filters:GaborFilterBank.get_impulse_response', 'filters:GaborFilterBank.get_frequency_response',
+FUNCTIONS = ['filters:TriangularOverlappingFilterBank.get_impulse_response', 'filters:ComplexGammatoneFilterBank._h', 'filters:GaborFilterBank.__init__', 'filters:GaborFilterBank.get_impulse_response', 'filters:GaborFilterBank.get_frequency_response',
              'filters:ComplexGammatoneFilterBank.__init__', 'filters:ComplexGammatoneFilterBank._calculate_temp_support',
              'filters:TriangularOverlappingFilterBank.supports', 'filters:Fbank.supports', 'filters:TriangularOverlappingFilterBank.get_impulse_response',
              'filters:Fbank.get_impulse_response', 'filters:ComplexGammatoneFilterBank.get_impulse_response']
@@ -37,10 +37,15 @@ EXPLANATION = (
     'every sample n of the Gabor impulse response in a buffer of W samples is the sum of the documented terms at times '
     'congruent to n modulo W and contains the one nearest 0 (object arrays of exponent tokens, nlsat matching for all sigma, '
     'xi); (S6) every sample of a causal gammatone impulse response is the periodised closed form c t^(n-1) exp(-alpha t) '
-    'exp(i xi t) for symbolic c, alpha, xi (index arithmetic on real NumPy integer arrays: int64 wrap-around is NumPy\'s own).')
+    'exp(i xi t) for symbolic c, alpha, xi (index arithmetic on real NumPy integer arrays: int64 wrap-around is NumPy\'s own); '
+    '(S7) every sample of a real triangular bank\'s impulse response, times pi (R-M)(M-L), is the inverse Fourier transform '
+    'of the triangle, N(n)/n^2 + N(W-n)/(W-n)^2 with N(t) = (R-L)cos(Mt) - (R-M)cos(Lt) - (M-L)cos(Rt) (cos uninterpreted, '
+    'symbolic vertices, both orderings of the edge widths; symbolic denominators cleared by exact polynomial arithmetic, '
+    'vlib/ratpoly.py, before z3 decides the division-free statement); a witness counts only if the property\'s own '
+    'criterion fails on the real bank in a long buffer.')
 BOUNDS = {'quick': 'all sigma > 0 / alpha > 0 (symbolic), gammatone orders 3-6, Gabor impulse/frequency response evaluated at 4 sample points / 2 bins; '
-                   'Gabor sample placement for buffer widths 2,3,4,5,8; gammatone closed form for (order, width) = (4,5) (4,40) (8,600), support 1.5 x width',
-          'thorough': 'gammatone orders 3-8; placement widths 1-9, 12, 15; closed form also (3,7) (6,64) (8,1030)'}
+                   'Gabor sample placement for buffer widths 2,3,4,5,8; triangular closed form for widths 2,3,5; gammatone closed form for (order, width) = (4,5) (4,40) (8,600), support 1.5 x width',
+          'thorough': 'gammatone orders 3-8; placement widths 1-9, 12, 15; triangular closed form widths 1-5, 8; closed form also (3,7) (6,64) (8,1030)'}
 OUTSIDE = ['the central IDFT-agreement clause (see above)', 'straddling of sample 0 for Fbank and Gabor supports (needs numeric bounds on a cube root / on sigma*sqrt(const - 2 log sigma); z3 stays undecided)', 'magnitudes outside supports in a finite buffer (needs the same aliasing analysis)',
            'gammatone orders 1-2 and scale_l2_norm (excluded by the property)', 'floating point']
 ASSUMPTIONS = ['Gaussian / gamma envelopes decrease monotonically beyond their mode (closed forms)',
@@ -59,6 +64,9 @@ def configs(tier, seed):
     for erb, l2 in itertools.product((False, True), (False, True)):
         cfgs.append(dict(kind='gabor', name='gabor edges erb=%s l2=%s' % (erb, l2), erb=erb, l2=l2))
     for l2 in (False, True):
+        if not l2:
+            for W_ in ((2, 3, 5) if tier == 'quick' else (1, 2, 3, 4, 5, 8)):
+                cfgs.append(dict(kind='tri_impulse', name='triangular impulse response closed form width %d' % W_, width=W_))
         cfgs.append(dict(kind='gabor_place', name='gabor impulse response sample placement l2=%s' % l2, l2=l2, widths=[2, 3, 4, 5, 8] if tier == 'quick' else [1, 2, 3, 4, 5, 6, 7, 8, 9, 12, 15]))
     for order, width in (((4, 5), (4, 40), (8, 600)) if tier == 'quick' else ((3, 7), (4, 5), (4, 40), (6, 64), (8, 600), (8, 1030))):
         cfgs.append(dict(kind='gt_impulse', name='gammatone impulse response closed form n%d width %d' % (order, width), order=order, width=width))
@@ -886,7 +894,110 @@ def run_gt_impulse(cfg):
                 samples=[{'config': cfg['name'], 'obligation': 'forall c, alpha, xi: h[n] = sum_{t = n mod W, 0 < t <= R} c t^(order-1) exp(-alpha t) exp(i xi t)', 'support': [0, R_]}])
 
 
+COSF = z3.Function('COS', R, R)
+
+
+def _fv(m, name):
+    v = m.eval(z3.Real(name), model_completion=True)
+    try:
+        return float(v.as_fraction()) if z3.is_rational_value(v) else float(v.approx(12).as_fraction())
+    except Exception:
+        return 0.0
+
+
+def run_tri_impulse(cfg):
+    """TriangularOverlappingFilterBank.get_impulse_response (real bank), symbolic vertices, concrete buffer width W: sample n,
+    multiplied by pi (R-M)(M-L), is N(n)/n^2 + N(W-n)/(W-n)^2 with N(t) = (R-L)cos(Mt) - (R-M)cos(Lt) - (M-L)cos(Rt) -- the
+    inverse Fourier transform of the triangle, folded once each way -- and sample 0 is N(W)/W^2 plus the area term
+    (R-L)(R-M)(M-L)/2.  cos is an uninterpreted function (only equal arguments matter), pi and the Hz -> rad/sample factor
+    are positive symbolic constants; both orderings of the two edge widths are explored (the code picks its divisor by
+    that ordering).  The symbolic denominators are cleared by exact polynomial arithmetic (vlib/ratpoly.py: nlsat does not
+    finish on the rational form); z3 then decides the division-free statement `numerator != 0` under the path condition."""
+    from vlib import ratpoly
+    W = cfg['width']
+
+    class P(PNP):
+        @staticmethod
+        def cos(v):
+            return SReal(COSF(z3.simplify(rv(v)))) if symex.is_sym(v) else math.cos(v)
+    if not hasattr(SReal, 'conj'):
+        SReal.conj = lambda s_: s_
+    PI_, K_ = z3.Real('PI'), z3.Real('rad_per_hz')
+    P.pi = SReal(PI_)
+    ns = fc.load_filters(dict(np=P()), decimal=False)
+    fc.stub_alias(ns)
+    ns['hertz_to_angular'] = lambda hz, rate: hz * SReal(K_)
+    viol = []
+    ob = dis = 0
+    lz, mz, rz = z3.Real('left_hz'), z3.Real('mid_hz'), z3.Real('right_hz')
+
+    def body():
+        c = Ctx.cur
+        c.assume(lz >= 0, lz < mz, mz < rz, rz <= 4000, PI_ > 3, PI_ < 4, K_ > 0, K_ < 1)
+        b = fc.handbuilt(ns, 'TriangularOverlappingFilterBank', _vertices=(SReal(lz), SReal(mz), SReal(rz)), _rate=8000, _analytic=False)
+        try:
+            res = b.get_impulse_response(0, W)
+        except Exception as e:
+            symex.guard(e)
+            return ('exception', '%s: %s' % (type(e).__name__, e))
+        if len(res) != W:
+            return ('length', len(res))
+        return ('ok', [rv(x) if not isinstance(x, (int, float)) else z3.RealVal(x) for x in res])
+
+    for ctx, res in explore(body, max_paths=20):
+        if res is None:
+            continue
+        ob += 1
+        base = dict(kind='tri_impulse', width=W)
+        if res[0] != 'ok':
+            viol.append(dict(base, what='%s %s' % (res[0], res[1]), **{'class': 'tri_impulse/' + res[0]}))
+            continue
+        cells = res[1]
+        L_, M_, R_ = lz * K_, mz * K_, rz * K_
+
+        def N(t):
+            return (R_ - L_) * COSF(M_ * t) - (R_ - M_) * COSF(L_ * t) - (M_ - L_) * COSF(R_ * t)
+        diffs = []
+        for n in range(W):
+            if n == 0:
+                want = N(W) / (W * W) + (R_ - L_) * (R_ - M_) * (M_ - L_) / 2
+            else:
+                want = N(n) / (n * n) + N(W - n) / ((W - n) * (W - n))
+            diffs.append(cells[n] * PI_ * (R_ - M_) * (M_ - L_) - want)
+        verdict = 'unsat'
+        # max / min of symbolic values are if-then-else terms: one case per feasible combination
+        for terms, conds in ratpoly.ite_cases(diffs, list(ctx.pc)):
+            env = {}
+            try:
+                nums = [ratpoly.normalise(t_, env).n for t_ in terms]
+            except ValueError as e:
+                raise symex.Inconclusive('impulse response is not a rational expression in the vertices and cosines: %s' % e)
+            if all(p_.is_zero() for p_ in nums):
+                continue
+            # some numerator is not the zero polynomial: z3 finds vertices (and values of the opaque cosines) where it differs
+            s_ = z3.Solver()
+            s_.set('timeout', 120000)
+            s_.add(*ctx.pc)
+            s_.add(*conds)
+            fresh = {name: (t_ if t_.decl().arity() == 0 else z3.Real('cosv%d' % i)) for i, (name, t_) in enumerate(sorted(env.items()))}
+            s_.add(z3.Or([p_.to_z3(fresh) != 0 for p_ in nums if not p_.is_zero()]))
+            r = str(s_.check())
+            if r == 'sat':
+                m = s_.model()
+                viol.append(dict(base, what='impulse response differs from the inverse transform of the triangle', left=_fv(m, 'left_hz'), mid=_fv(m, 'mid_hz'), right=_fv(m, 'right_hz'),
+                                 **{'class': 'tri_impulse/value'}))
+                verdict = 'sat'
+                break
+            if r != 'unsat':
+                raise symex.Inconclusive('solver: %s' % r)
+        if verdict == 'unsat':
+            dis += 1
+    return dict(obligations=ob, discharged=dis, violations=viol, samples=[{'config': cfg['name']}], twin=dis > 0)
+
+
 def run_config(cfg):
+    if cfg['kind'] == 'tri_impulse':
+        return run_tri_impulse(cfg)
     if cfg['kind'] == 'gt_impulse':
         return run_gt_impulse(cfg)
     if cfg['kind'] == 'gabor_place':
@@ -956,6 +1067,24 @@ def replay(w):
                       if v2 > worst[0]:
                           worst = (float(v2), 'filter %d of %d (time; %.1f x threshold)' % (i, nfb, v2 / 1.25 / thr))
             return {'reproduced': worst[0] > 2.5 * thr, 'detail': 'max magnitude outside the advertised support = %.3g (%.1f x threshold) at %s' % (worst[0], worst[0] / thr, worst[1])}
+        if k == 'tri_impulse':
+            # the property's own criterion on real banks with the witness vertices (and two further triangles, one with
+            # the wider lower edge, one with the wider upper edge), in buffers long enough to resolve the filter:
+            # |ifft(get_frequency_response) - get_impulse_response| <= 2 x threshold.  A different but legitimate way of
+            # folding the tails into a short buffer does not reproduce here and ends without a verdict.
+            worst = (0.0, None)
+            cands = [(w.get('left', 100.0), w.get('mid', 900.0), w.get('right', 1300.0)), (500.0, 2500.0, 3000.0), (500.0, 1000.0, 3000.0)]
+            for l_, m_, r_ in cands:
+                if not (0 <= l_ < m_ < r_ <= 4000) or r_ - l_ < 100:
+                    continue
+                b = fc.real_handbuilt(filters.TriangularOverlappingFilterBank, _vertices=(l_, m_, r_), _rate=8000, _analytic=False)
+                for W in (1024, 2049):
+                    h = b.get_impulse_response(0, W)
+                    H = b.get_frequency_response(0, W)
+                    d = float(np.abs(np.fft.ifft(H) - h).max())
+                    if d > worst[0]:
+                        worst = (d, 'triangle (%g, %g, %g) Hz at 8 kHz, width %d' % (l_, m_, r_, W))
+            return {'reproduced': worst[0] > 2 * thr, 'detail': 'max |ifft(get_frequency_response) - get_impulse_response| = %.3g (%.1f x threshold; %s)' % (worst[0], worst[0] / thr, worst[1])}
         if k == 'gt_impulse':
             worst = (0.0, None)
             for rate, nf in ((8000, 6), (44100, 40)):
